@@ -348,6 +348,18 @@ def fs_hook(vfs: VFS):
                 return posixpath.splitext(sval(args[0]))
             if name in ("os.getcwd",):
                 return vfs.cwd
+            if (name.startswith("os.path.") or name.startswith("posixpath.")) and base in ("commonprefix", "commonpath", "normpath", "split", "isabs", "normcase", "splitdrive"):
+                # pure string functions of os.path: the library's own (POSIX) implementation on the plain values
+                def plainv(a):
+                    if isinstance(a, (list, tuple)):
+                        return [plainv(x) for x in a]
+                    if isinstance(a, (str, PathV)):
+                        return sval(a)
+                    raise Unknown(f"os.path.{base} of a symbolic value")
+                try:
+                    return getattr(posixpath, base)(*[plainv(a) for a in args])
+                except ValueError:
+                    raise PyRaise("ValueError", node)
             if name in ("os.fspath",):
                 return sval(args[0])
             if name == "os.open":
